@@ -84,6 +84,8 @@ def _direct(item):
     for c in range(item["cases"]):
         rng = rng_for(item["seed"], PROPERTY, 1, item["k"], c)
         n = int(rng.choice([1, 2, 3, 7, 50, 400]))
+        if c == 7 and item["k"] % 4 == 0:
+            n = 4500  # above 4096 rows (n*n > 2**24): size-dependent code paths
         ids = _ids(rng, n)
         for prim, colkinds in (("sum", ["float", "int", "bool"]), ("mean", ["float"]), ("max", ["float", "int", "date"]),
                                ("min", ["float", "int", "date"]), ("any", ["bool", "int"]), ("all", ["bool", "int"])):
